@@ -160,13 +160,28 @@ def draw_example(schema, case, hseed, n):
     return out, None
 
 
+def _content_key(o):
+    """hashable description of a draw's content. NOT via to_json(): pandas'
+    ujson writer crashes the interpreter (SIGSEGV) on some generated strings
+    (lone surrogates in index labels)"""
+    import pandas as pd
+    if isinstance(o, pd.DataFrame):
+        return ("DataFrame", repr([str(t) for t in o.dtypes]), repr(list(o.columns)),
+                repr(o.index.tolist()), repr(o.to_numpy(dtype=object).tolist()))
+    if isinstance(o, pd.Series):
+        return ("Series", str(o.dtype), repr(o.name), repr(o.index.tolist()), repr(o.tolist()))
+    if isinstance(o, pd.Index):
+        return (type(o).__name__, repr([str(t) for t in getattr(o, "dtypes", [o.dtype])]),
+                repr(list(o.names)), repr(o.tolist()))
+    return (type(o).__name__, repr(o))
+
+
 def _dedup(objs):
     """hypothesis replays a failing example once more: drop identical repeats"""
     seen, out = set(), []
     for o in objs:
         try:
-            key = (type(o).__name__, o.to_json() if hasattr(o, "to_json")
-                   else repr(list(o)))
+            key = _content_key(o)
         except Exception:               # noqa: BLE001
             key = id(o)
         if key not in seen:
@@ -228,7 +243,7 @@ def show(d):
         if isinstance(d, pd.DataFrame):
             return {"type": "DataFrame", "dtypes": {str(k): str(v) for k, v in d.dtypes.items()},
                     "index": repr(d.index)[:200],
-                    "data": json.loads(d.reset_index(drop=True).astype(str).to_json(orient="split"))["data"][:6]}
+                    "data": d.head(6).astype(str).to_numpy(dtype=object).tolist()}
         if isinstance(d, pd.Series):
             return {"type": "Series", "dtype": str(d.dtype), "name": d.name,
                     "index": repr(d.index)[:200], "data": [repr(x) for x in d.tolist()[:6]]}
